@@ -737,7 +737,9 @@ def shared_fields_rule(ctx, LA, classes, roots, self_concurrent=(), floor=1, aud
 # call sites that may drop the result of BasePlugin::init / initPlugin, with the reason
 INIT_RESULT_DROPPED_OK = {
     "Oomd::Engine::DetectorGroup::DetectorGroup": "the detector clone is initialised with exactly the arguments and construction context with which the template's "
-                                                  "init() already succeeded when the configuration was compiled",
+                                                  "init() already succeeded when the configuration was compiled (an init() that reads the environment - memory_above "
+                                                  "reads /proc/meminfo - can still fail at that moment; the clone then never fires.  C11 does not quantify over "
+                                                  "faults, so this is recorded as an observation, DESIGN 12)",
 }
 
 
